@@ -103,6 +103,9 @@ impl Prop for C12 {
     fn cases(&self, tier: Tier) -> u64 {
         tier.pick(300_000, 4_000_000)
     }
+    fn max_shrink_iters(&self) -> u32 {
+        1200
+    }
     fn strategy(&self, _tier: Tier) -> BoxedStrategy<Case> {
         let minutes = prop_oneof![3 => -90.0..=90.0f64, 2 => (-90..=90i32).prop_map(|m| m as f64), 1 => prop_oneof![Just(90.0), Just(-90.0), Just(1.0), Just(-1.0), Just(0.5)]];
         let interval = || prop_oneof![3 => 1.0..=120.0f64, 2 => (1..=120i32).prop_map(|m| m as f64), 1 => prop_oneof![Just(1.0), Just(120.0), Just(90.0)]];
